@@ -40,4 +40,6 @@ def check(tier, seed):
                      "pivots of the LEFT kernel basis and the unknowns from the RIGHT one, and its closure to return P solve((1 - D) P v) without touching the caller's vector; the Lean lemma "
                      "PV.Direct.greens_solves then gives (E - h) x = P v and P x = x, PV.Direct.constrained_injective that the factorised matrix is non-singular.")
     d.run_battery("bd_battery.py", ["solvers"], "matrices of size <= 30, 2 explicit blocks, real/complex, degenerate explicit levels, non-normal H_0 with biorthogonal bases (incl. left vector vanishing on the right pivot), KPM with 0/1/5 auxiliary vectors; see replay/bd_battery.py")
+    d.run_battery("nof_battery.py", ["solver"], "second-quantized solver as an exact operator identity: 11 problems over boson / ladder / spin / fermion combinations, diagonal elements "
+                  "and off-diagonal blocks, symbolic parameters; residual simplified to the zero operator in number-ordered form")
     return d.finish(level="proof", trusted_base=["contracts/sylvester.py", "contracts/linalg_direct.py", "pyvc/pw.py", "leanalg/lean/PV/Direct.lean"])
